@@ -18,6 +18,7 @@
    use in the anchored code treats them alike: `headers or {}`, `if not self.headers`,
    `if self.headers and ...`).  [rq_body] is what _get_body_or_chunks() returns (C15). *)
 From PM Require Import Lib.Bytes Lib.PyStr Ws.Sha1.
+From Coq Require Import ZArith.
 
 Definition hdr := (bytes * bytes)%type.          (* (name as received, value) *)
 Definition headers := dict hdr.
@@ -25,7 +26,7 @@ Definition headers := dict hdr.
 Record request := mkRequest {
   rq_method : bytes;
   rq_host : option bytes;
-  rq_port : option N;
+  rq_port : option Z;         (* int(...) of the port text: may be 0, negative or above 65535 *)
   rq_path : option bytes;
   rq_version : bytes;
   rq_headers : headers;
@@ -187,7 +188,7 @@ Definition headers_eqb (x y : headers) : bool :=
 Definition request_eqb (x y : request) : bool :=
   bytes_eqb (rq_method x) (rq_method y)
   && option_eqb bytes_eqb (rq_host x) (rq_host y)
-  && option_eqb N.eqb (rq_port x) (rq_port y)
+  && option_eqb Z.eqb (rq_port x) (rq_port y)
   && option_eqb bytes_eqb (rq_path x) (rq_path y)
   && bytes_eqb (rq_version x) (rq_version y)
   && headers_eqb (rq_headers x) (rq_headers y)
